@@ -6,6 +6,7 @@ import (
 	"runtime"
 	"sync"
 	"sync/atomic"
+	"syscall"
 	"time"
 )
 
@@ -44,11 +45,20 @@ func FlushAll() {
 
 // The watchdog: library calls cannot be interrupted, so a call that does not
 // return would wedge the shard until the test deadline. Every API wrapper
-// stamps the start of the call; a background goroutine notices a call that
-// has been running for HangLimit, writes the case as a replay (kind
-// "terminates"), records the violation, flushes the statistics and exits.
+// stamps the start of the call; a background goroutine notices a call during
+// which the process has consumed HangLimit of CPU time, writes the case as a
+// replay (kind "terminates"), records the violation, flushes the statistics
+// and exits.
+//
+// The limit is on CPU time, not on the wall clock: on a machine that is busy
+// with other work a call can be descheduled for a long time without being at
+// fault (a wall-clock limit of 20 s did fire once, on a call that takes
+// microseconds, with the load average at 41). The CPU time of the whole
+// process is an upper bound on what the call has used. A call that blocks
+// without using CPU is caught by WallLimit.
 var (
 	HangLimit   = 20 * time.Second
+	WallLimit   = 10 * time.Minute
 	callStart   atomic.Int64 // unix nanos; 0 = not in a call
 	currentCase atomic.Pointer[watched]
 	wdOnce      sync.Once
@@ -69,15 +79,73 @@ func Watch(c *Collector, check string, calls ...Call) {
 func enterCall() { callStart.Store(time.Now().UnixNano()) }
 func leaveCall() { callStart.Store(0) }
 
+// ProcessCPU is the CPU time (user + system) the process has used so far.
+func ProcessCPU() time.Duration {
+	var ru syscall.Rusage
+	if err := syscall.Getrusage(syscall.RUSAGE_SELF, &ru); err != nil {
+		return 0
+	}
+	return time.Duration(ru.Utime.Nano() + ru.Stime.Nano())
+}
+
+const rusageThread = 1 // RUSAGE_THREAD (Linux)
+
+// ThreadCPU is the CPU time of the calling OS thread; meaningful between two
+// calls only while the goroutine is locked to its thread.
+func ThreadCPU() time.Duration {
+	var ru syscall.Rusage
+	if err := syscall.Getrusage(rusageThread, &ru); err != nil {
+		return 0
+	}
+	return time.Duration(ru.Utime.Nano() + ru.Stime.Nano())
+}
+
+// CPUTimed runs f on a locked OS thread and returns the CPU time that thread
+// spent in it: a measure of the cost of f that does not depend on how busy
+// the machine is.
+func CPUTimed(f func()) time.Duration {
+	runtime.LockOSThread()
+	defer runtime.UnlockOSThread()
+	t0 := ThreadCPU()
+	f()
+	return ThreadCPU() - t0
+}
+
+// AwaitBounded waits for done; it gives up when the process has used
+// HangLimit of CPU time since the wait began, or after WallLimit.
+func AwaitBounded(done <-chan string) (string, bool) {
+	cpu0, t0 := ProcessCPU(), time.Now()
+	tick := time.NewTicker(100 * time.Millisecond)
+	defer tick.Stop()
+	for {
+		select {
+		case msg := <-done:
+			return msg, true
+		case <-tick.C:
+			if ProcessCPU()-cpu0 >= HangLimit || time.Since(t0) >= WallLimit {
+				return "", false
+			}
+		}
+	}
+}
+
 func startWatchdog() {
 	go func() {
+		var trackSt int64
+		var trackCPU time.Duration
 		for {
 			time.Sleep(250 * time.Millisecond)
 			st := callStart.Load()
 			if st == 0 {
+				trackSt = 0
 				continue
 			}
-			if time.Duration(time.Now().UnixNano()-st) < HangLimit {
+			if st != trackSt {
+				// a different call from the one seen at the last tick
+				trackSt, trackCPU = st, ProcessCPU()
+				continue
+			}
+			if ProcessCPU()-trackCPU < HangLimit && time.Duration(time.Now().UnixNano()-st) < WallLimit {
 				continue
 			}
 			w := currentCase.Load()
@@ -87,7 +155,7 @@ func startWatchdog() {
 				os.Exit(4)
 			}
 			r := Replay{Check: w.check, Kind: "terminates", Calls: w.calls,
-				Message: fmt.Sprintf("library call did not return within %s", HangLimit)}
+				Message: fmt.Sprintf("library call did not return within %s of CPU time", HangLimit)}
 			w.c.hang(r)
 			fmt.Printf("VIOLATION %s/%s: %s\n  calls: %s\n", w.c.Property, w.check, r.Message, callsText(r.Calls))
 			FlushAll()
